@@ -41,7 +41,7 @@ RULE = (
 )
 ASSUMPTIONS = [
     "the allowed language is the one written down in vlib/exprsafe.py (numbers, names, flow selectors, pi, + - * / ** unary -/+, < <= > >= == !=, positional calls of the 17 listed functions); "
-    "// % @ is/in, complex/bool constants, wrong arity, listed function used as a value, strings >= 1800 characters, nesting deeper than 40 levels and strings whose ':' can be read both as a "
+    "// % @ is/in, complex/bool constants, wrong arity, listed function used as a value, strings >= 1800 characters, nesting deeper than 150 levels and strings whose ':' can be read both as a "
     "selector and as Python syntax (lambda:x) are 'unspecified': no assertion either way, never evaluated",
     "any exception counts as 'rejected when parsed' (the exception type belongs to C18)",
     "arith domain: operands finite, |intermediate| <= 1e12, x/0 with x != 0, 0**0, 0**negative, negative**non-integer, sqrt(<0), ln(<=0) are masked element-wise; truth values only at the "
@@ -51,7 +51,7 @@ ASSUMPTIONS = [
     "evaluate_plot_string: strings with '{' or '[' must be list/dict displays of string constants (its docstring / assertion message); other strings are returned verbatim; "
     "the module-level name eval seen by atomica.utils is replaced by a recorder while the harness calls it",
 ]
-BUDGET = {"quick": 96000, "thorough": 6000000}
+BUDGET = {"quick": 96000, "thorough": 4800000}
 TIME_CAP = {"quick": 35, "thorough": 1100}
 TOL = 1e-12
 ATHERIS_SECONDS = int(os.environ.get("C19_ATHERIS_SECONDS", "420"))
